@@ -338,10 +338,13 @@ fn calculate_template_length_chunk(
         alignment_end(record_alignment_start, record_read_length, record_features);
     let mate_alignment_end = alignment_end(mate_alignment_start, mate_read_length, mate_features);
 
-    let end = record_alignment_end
+    // Both segments are empty alignments at the first position.
+    let Some(end) = record_alignment_end
         .max(mate_alignment_end)
         .map(usize::from)
-        .expect("invalid end position");
+    else {
+        return 0;
+    };
 
     // "...the absolute value of TLEN equals the distance between the mapped end of the template
     // and the mapped start of the template, inclusively..."
@@ -351,7 +354,8 @@ fn calculate_template_length_chunk(
         end - start + 1
     };
 
-    i32::try_from(len).expect("invalid template length")
+    // The template length is a 32-bit integer.
+    i32::try_from(len).unwrap_or(i32::MAX)
 }
 
 #[derive(Clone, Debug, Eq, PartialEq)]
@@ -618,6 +622,26 @@ mod tests {
         ));
 
         Ok(())
+    }
+
+    #[test]
+    fn test_calculate_template_length_with_out_of_range_lengths() {
+        // The alignments are empty.
+        let record = Record {
+            alignment_start: Position::new(1),
+            ..Default::default()
+        };
+
+        assert_eq!(calculate_template_length(&record, &record), 0);
+
+        // The template length overflows.
+        let mate = Record {
+            alignment_start: Position::new(1 << 31),
+            read_length: 1,
+            ..Default::default()
+        };
+
+        assert_eq!(calculate_template_length(&record, &mate), i32::MAX);
     }
 
     #[test]
